@@ -281,3 +281,12 @@ ZOO += [
     ('R3-imu-positional-columns', 'C15,C01', 'strapdown.py', "    gyro = imu[GYRO_COLS].values\n    accel = imu[ACCEL_COLS].values", "    gyro = imu.values[:, :3]\n    accel = imu.values[:, 3:6]"),
     ('R3-rate-n-int-truncation', 'C16', 'earth.py', "    result = np.zeros((n, 3))", "    result = np.zeros((n, 3), dtype=np.asarray(lat).dtype)"),
 ]
+ZOO += [
+    # ---- round 4: revert of the repair, and the mechanisms of the fourth round as single-site mutations
+    ('R4-from_EstimationModel-negative-revert', 'C14', 'inertial_sensor.py', "        bias = np.maximum(model.bias_sd, 0) * rng.randn(3)", "        bias = model.bias_sd * rng.randn(3)"),
+    ('R4-shared-zero-matrix', 'C08,C19', 'kalman.py', "    n = len(F)\n    H = np.zeros((2 * n, 2 * n))", "    n = len(F)\n    if dt == 0:\n        _c = compute_process_matrices.__dict__.setdefault('c', {})\n        return _c.setdefault(('I', n), np.eye(n)), _c.setdefault(('0', n), np.zeros((n, n)))\n    H = np.zeros((2 * n, 2 * n))"),
+    ('R4-tiny-Q-is-zero', 'C08', 'kalman.py', "    H[:n, n:] = Q\n", "    H[:n, n:] = Q if not np.allclose(Q, 0) else 0.0\n"),
+    ('R4-dropna-any-column', 'C06', 'measurements.py', "        super(Position, self).__init__(data[LLA_COLS])", "        super(Position, self).__init__(data.dropna()[LLA_COLS])"),
+    ('R4-negative-noise-enabled', 'C14', 'inertial_sensor.py', "            if noise[axis] > 0:", "            if noise[axis] != 0:"),
+    ('R4-resample-allclose', 'C18', 'transform.py', "    times = times[(times >= state.index[0]) & (times <= state.index[-1])]\n", "    times = times[(times >= state.index[0]) & (times <= state.index[-1])]\n    if len(times) == len(state) and np.allclose(times, state.index):\n        return state.set_axis(pd.Index(times)).astype(float)\n"),
+]
